@@ -213,10 +213,18 @@ pub struct HistCase {
     pub spec: ParamSpec,
     pub ops: Vec<Op>,
     pub save_seed: bool,
+    /// run on the library's own entropy path (no entropy script installed): `BlakeRNGFactory::get_rng` as shipped
+    #[serde(default)]
+    pub os_entropy: bool,
 }
 
 fn check_hist(c: &HistCase, seed: u64) -> CaseOut {
     he::env_real(seed, h64(&serde_json::to_string(c).unwrap()));
+    if c.os_entropy {
+        // the factory's real path: a collision of two 512-bit seeds / 480-bit masks drawn from OS entropy is not a reachable
+        // event, so "pairwise distinct" stays a sound oracle; what a failing history reports is deterministic in its key
+        verif_hooks::set_entropy(None);
+    }
     let sch = c.spec.scheme;
     let mut w = match World::new(&c.spec) {
         Ok(w) => w,
@@ -519,7 +527,7 @@ pub fn sections(thorough: bool, seed: u64) -> Vec<Box<dyn AnySection>> {
                     if ss && !uses_keys {
                         continue;
                     }
-                    cases.push(HistCase { spec: spec.clone(), ops: ops.clone(), save_seed: ss });
+                    cases.push(HistCase { spec: spec.clone(), ops: ops.clone(), save_seed: ss, os_entropy: false });
                 }
             }
         }
@@ -528,6 +536,40 @@ pub fn sections(thorough: bool, seed: u64) -> Vec<Box<dyn AnySection>> {
         E1::new(
             "fresh_histories",
             &format!("BFV/BGV/CKKS at N=16, q=(30,30,31 bits): ALL histories of length <= {maxlen} over {{encrypt pk, encrypt sk, encrypt sk+seed, encrypt_zero, new KeyGenerator, create_public_key, create_relin_keys, create_galois_keys_from_elts([3]), create_keyswitching_key}}, key operations with save_seed in {{false,true}}"),
+            cases.into_iter(),
+            move |c: &HistCase| check_hist(c, seed),
+        )
+        .deadline(Duration::from_secs(60)),
+    );
+
+    // the same histories on the factory's own entropy path (the hook of H1 returns before that code, so state kept by the
+    // factory between generators — a counter, a cached master seed — is visible only here)
+    let oslen = if thorough { 3 } else { 2 };
+    let mut cases: Vec<HistCase> = vec![];
+    for len in 1..=oslen {
+        for sch in Scheme::all() {
+            let spec = spec3(sch);
+            for code in 0..OPS.len().pow(len as u32) {
+                let mut ops = vec![];
+                let mut x = code;
+                for _ in 0..len {
+                    ops.push(OPS[x % OPS.len()]);
+                    x /= OPS.len();
+                }
+                let uses_keys = ops.iter().any(|o| matches!(o, Op::Pk | Op::Relin | Op::Galois | Op::Ksk));
+                for ss in [false, true] {
+                    if ss && !uses_keys {
+                        continue;
+                    }
+                    cases.push(HistCase { spec: spec.clone(), ops: ops.clone(), save_seed: ss, os_entropy: true });
+                }
+            }
+        }
+    }
+    v.push(
+        E1::new(
+            "fresh_histories_os_entropy",
+            &format!("the histories of length <= {oslen} of fresh_histories with NO entropy script installed: BlakeRNGFactory::get_rng runs as shipped (OS entropy); masks / stored seeds / secrets pairwise distinct, seeded objects expand to what decrypts"),
             cases.into_iter(),
             move |c: &HistCase| check_hist(c, seed),
         )
